@@ -129,6 +129,27 @@ def facts():
                 callers=callers)
 
 
+DPL_ATTRS = ("dpl_set", "dpl_deque")
+
+
+def dpl_touchers():
+    """`Class.method` of every function in geonet/location_table.py and geonet/router.py that mentions the duplicate packet
+    list (`dpl_set` / `dpl_deque`) - the list must be touched by the entry's constructor and by the DPD step only: nothing
+    (no exception handler, no maintenance method) may take an accepted sequence number out again (round 6, C06-m12)"""
+    out = []
+    for path in ("geonet/location_table.py", "geonet/router.py"):
+        tree = ast.parse(src(path))
+        for cls in [n for n in tree.body if isinstance(n, ast.ClassDef)]:
+            for fn in [n for n in cls.body if isinstance(n, (ast.FunctionDef, ast.AsyncFunctionDef))]:
+                if any(isinstance(n, ast.Attribute) and n.attr in DPL_ATTRS for n in ast.walk(fn)) or \
+                        any(isinstance(n, ast.Constant) and n.value in DPL_ATTRS for n in ast.walk(fn)):
+                    out.append(f"{cls.name}.{fn.name}")
+        for fn in [n for n in tree.body if isinstance(n, (ast.FunctionDef, ast.AsyncFunctionDef))]:
+            if any(isinstance(n, ast.Attribute) and n.attr in DPL_ATTRS for n in ast.walk(fn)):
+                out.append(fn.name)
+    return out
+
+
 @gen_lean.register(props=["C06"])
 def gen_router_rx():
     f = facts()
@@ -142,6 +163,8 @@ def gen_router_rx():
     body += f"/-- methods of Router that assign / delete `self._rx_context.secured_message` -/\ndef ctxWriters : List String := {_lean_strs(f['writers'])}\n"
     body += f"/-- other methods of Router that mention `self._rx_context` -/\ndef ctxReaders : List String := {_lean_strs(f['readers'])}\n"
     body += f"/-- methods of Router that call `self._forward_pdu` -/\ndef forwardPduCallers : List String := {_lean_strs(f['callers'])}\n"
+    body += ("/-- functions of location_table.py / router.py that mention the duplicate packet list (`dpl_set`, `dpl_deque`) -/\n"
+             f"def dplTouchers : List String := {_lean_strs(dpl_touchers())}\n")
     body += "end Generated.RouterRx\n"
     write_if_changed("RouterRx.lean", body)
 
